@@ -36,10 +36,12 @@ class FieldArrayModel(FieldCompositeModel):
         # Holds a cached version of the sum constraint
         self.sum_expr_btor = None
         self.sum_expr = None
+        self.sum_expr_sz = -1
         
         # Holds a cached version of the sum constraint
         self.product_expr_btor = None
         self.product_expr = None
+        self.product_expr_sz = -1
         
         self.size = FieldScalarModel(
             "size",
@@ -136,8 +138,10 @@ class FieldArrayModel(FieldCompositeModel):
         self.size.set_used_rand(is_rand, level+1, in_set)
         
     def get_sum_expr(self):
-        if self.sum_expr is None:
-            # Build
+        if self.sum_expr is None or self.sum_expr_sz != int(self.size.get_val()):
+            # Build (again, when the size changed since: for a random-size
+            # list the solver may have assigned it in the meantime)
+            self.sum_expr_sz = int(self.size.get_val())
 
             # Compute clog2 of overflow term to 
             # ensure that we properly size the result
@@ -174,13 +178,14 @@ class FieldArrayModel(FieldCompositeModel):
         return result_bits
         
     def build_sum_expr(self, btor, ctx_width=-1):
-        if self.sum_expr_btor is None:
-            self.sum_expr_btor = self.get_sum_expr().build(btor, ctx_width)
-        return self.sum_expr_btor
+        # Built per use: the context width differs between the
+        # statements that use the sum
+        return self.get_sum_expr().build(btor, ctx_width)
     
     def get_product_expr(self):
-        if self.product_expr is None:
-            # Build
+        if self.product_expr is None or self.product_expr_sz != int(self.size.get_val()):
+            # Build (again, when the size changed since)
+            self.product_expr_sz = int(self.size.get_val())
             
             # Force the result to be 32-bit, in order to 
             # match user expectation
@@ -200,9 +205,7 @@ class FieldArrayModel(FieldCompositeModel):
         return self.product_expr
         
     def build_product_expr(self, btor, ctx_width=-1):
-        if self.product_expr_btor is None:
-            self.product_expr_btor = self.get_product_expr().build(btor, ctx_width)
-        return self.product_expr_btor    
+        return self.get_product_expr().build(btor, ctx_width)
         
     def accept(self, v):
         v.visit_field_scalar_array(self)
